@@ -974,6 +974,10 @@ typedef int (*imb_self_test_cb_t)(void *cb_arg, const IMB_SELF_TEST_CALLBACK_DAT
 
 #define IMB_MAX_BURST_SIZE 128
 #define IMB_MAX_JOBS       (IMB_MAX_BURST_SIZE * 2)
+#ifdef IMB_VERIF_SMALL_RING /* verification only: reduced job ring (power of two) */
+#undef IMB_MAX_BURST_SIZE
+#define IMB_MAX_BURST_SIZE IMB_VERIF_SMALL_RING
+#endif
 
 typedef struct IMB_MGR {
 
